@@ -83,41 +83,71 @@ def check_priority(ctx, R="C13.priority"):
     if len(ilist) != 1:
         raise AnalysisError("shape not recognised: interrupt block list of runTryInterrupt")
     il = ilist[0]
-    scan = [n for n in ast.walk(rt) if isinstance(n, ast.For) and unparse(n.iter) in (il, f"reversed({il})", f"{il}[::-1]") and isinstance(n.target, ast.Name)]
-    if len(scan) != 1:
-        raise AnalysisError("shape not recognised: interrupt scan of runTryInterrupt")
-    lp = scan[0]
-    iv = lp.target.id
-    rev_rt = 0 if unparse(lp.iter) == il else 1
-    sel = [n for n in ast.walk(lp) if isinstance(n, ast.Assign) and isinstance(n.targets[0], ast.Name) and unparse(n.value) == iv]
-    brk = any(isinstance(n, ast.Break) for n in ast.walk(lp))
-    if not sel:
-        raise AnalysisError("shape not recognised: block selection in runTryInterrupt")
-    blockv = sel[0].targets[0].id
-    picks_first = brk  # first match wins if the loop breaks, last match wins otherwise
-    # position (in source order) of the winning clause among enabled ones: last => 1
-    wins_last = (rc + rev_rt + (0 if picks_first else 1)) % 2
-    if wins_last == 1 and rc == rh:
-        ctx.ok(R, lp, f"compiler order reversed={bool(rc)}, runtime scan reversed={bool(rev_rt)}, {'first' if picks_first else 'last'} match wins => the latest enabled clause pre-empts")
-    elif rc == rh:
+    # which block does one round of the scheduler choose?  The statements of the `while True` body that precede the call of
+    # <block>.step(...) are interpreted over every truth table of (isEnabled, isRunning) for three handlers (64 tables): the
+    # choice must be the FIRST handler of the list that is enabled or running (or, uniformly, the LAST one), else the body
+    from .. import finite
+    import itertools
+
+    loops_ = [w for w in rt.body if isinstance(w, ast.While)]
+    if len(loops_) != 1:
+        raise AnalysisError("shape not recognised: scheduling loop of runTryInterrupt")
+    wbody = loops_[0].body
+    step_i = next((i for i, st_ in enumerate(wbody) if any(isinstance(c, ast.Call) and isinstance(c.func, ast.Attribute) and c.func.attr == "step" for c in ast.walk(st_))), None)
+    if step_i is None:
+        raise AnalysisError("shape not recognised: the step call of runTryInterrupt")
+    step_call = next(c for c in ast.walk(wbody[step_i]) if isinstance(c, ast.Call) and isinstance(c.func, ast.Attribute) and c.func.attr == "step")
+    if not isinstance(step_call.func.value, ast.Name):
+        raise AnalysisError("shape not recognised: the block stepped by runTryInterrupt")
+    blockv = step_call.func.value.id
+    # the body block: the local the function's body parameter is wrapped into (or the parameter itself)
+    body_names = set(lib.locals_assigned(rt, lambda v: isinstance(v, ast.Call) and "InterruptBlock" in unparse(v.func) and any(unparse(x) == bodyp for x in v.args))) | {bodyp}
+    policies = {"first": 0, "last": 0}
+    counter = None
+    ntab = 0
+    for bits in itertools.product([False, True], repeat=6):
+        recs = [finite.Rec(f"handler{i}", isEnabled=bits[2 * i], isRunning=bits[2 * i + 1]) for i in range(3)]
+        body_rec = finite.Rec("body", isEnabled=False, isRunning=False)
+        env = {il: list(recs)}
+        for bn in body_names:
+            env[bn] = body_rec
+        try:
+            finite.run(wbody[:step_i], env)
+        except finite.Unsupported as e:
+            raise AnalysisError(str(e))
+        got = env.get(blockv)
+        live = [r for r in recs if r.isEnabled or r.isRunning]
+        ntab += 1
+        for pol, want in (("first", live[0] if live else body_rec), ("last", live[-1] if live else body_rec)):
+            if got is want:
+                policies[pol] += 1
+            elif counter is None or pol == "first":
+                counter = (pol, bits, got, want) if counter is None or counter[0] != "first" else counter
+    policy = next((pol for pol in ("first", "last") if policies[pol] == ntab), None)
+    lp = loops_[0]
+    if policy is None:
+        pol, bits, got, want = counter
+        desc = ", ".join(f"handler{i}: enabled={bits[2*i]} running={bits[2*i+1]}" for i in range(3))
         ctx.finding(
             R,
-            lp,
-            "interrupt priority parity",
-            f"compiler lists handlers {'reversed' if rc else 'in source order'} and runTryInterrupt takes the {'first' if picks_first else 'last'} enabled one of "
-            f"{'the reversed list' if rev_rt else 'the list'}: the EARLIEST written enabled clause wins, the reference says the latest",
+            wbody[0],
+            "interrupt selection is not 'first enabled or running'",
+            f"runTryInterrupt does not step the first handler of its list that is enabled or already running: for ({desc}) it chooses {got!r} where {want!r} is due. "
+            f"A lower-priority handler whose condition holds would pre-empt a running higher-priority one (or a running handler would not be resumed)",
         )
-    # the test of the scan: enabled or already running
-    tests = [n for n in ast.walk(lp) if isinstance(n, ast.If)]
-    if tests and set(unparse(v) for v in (tests[0].test.values if isinstance(tests[0].test, ast.BoolOp) and isinstance(tests[0].test.op, ast.Or) else [tests[0].test])) == {f"{iv}.isEnabled", f"{iv}.isRunning"}:
-        ctx.ok(R, tests[0], "a handler is selected when its condition holds or it is already running (so it resumes until a higher one pre-empts)")
     else:
-        ctx.finding(R, lp, "interrupt selection test", "runTryInterrupt no longer selects `interrupt.isEnabled or interrupt.isRunning`")
-    blk0 = [n for n in ast.walk(rt) if isinstance(n, ast.Assign) and unparse(n.targets[0]) == blockv and unparse(n.value) == bodyp]
-    if blk0:
-        ctx.ok(R, blk0[0], "the body runs when no handler is enabled or running")
-    else:
-        ctx.finding(R, rt, "default block", "runTryInterrupt no longer defaults to the body block")
+        ctx.ok(R, wbody[0], f"in all {ntab} truth tables of three handlers the block stepped is the {policy} handler of the list that is enabled or running, else the body")
+        # position (in source order) of the winning clause among the live ones: last => 1
+        wins_last = (rc + (0 if policy == "first" else 1)) % 2
+        if wins_last == 1 and rc == rh:
+            ctx.ok(R, lp, f"compiler order reversed={bool(rc)}, the runtime takes the {policy} live handler of that list => the latest written live clause pre-empts")
+        elif rc == rh:
+            ctx.finding(
+                R,
+                lp,
+                "interrupt priority parity",
+                f"compiler lists handlers {'reversed' if rc else 'in source order'} and runTryInterrupt takes the {policy} live one of the list: the EARLIEST written enabled clause wins, the reference says the latest",
+            )
 
 
 def check_resume(ctx, R="C13.resume"):
